@@ -42,6 +42,14 @@ def gen_cases(rng, tier: str) -> list[dict]:
             if len(vs) == 1 and rng.random() < 0.4:
                 c["via"] = rng.choice(["derivative-point", "derivative-number"])
             cases.append(c)
+    # names the library uses internally (placeholder for "no variable", parameter names), through Derivative at a number
+    for nm in ("whatever", "self", "point", "variable", "expression"):
+        v = X.Variable(nm)
+        for e, t in ((X.NthPower(v, 3), 2.0), (X.Exponential(v, base=2), 3.0), (X.Sine(X.Logarithm(v)), 1.5), (X.NthRoot(v, 5), -32.0)):
+            for via in ("derivative-number", "derivative-point", "name"):
+                c = common.make_eval_case("internal-names", e, {nm: t})
+                c.update(prior=[], x=nm, via=via, persist=False)
+                cases.append(c)
     return cases
 
 
